@@ -89,7 +89,7 @@ def _expect(stmts, wanted, where):
         return
     if got != wanted:
         for i, (g, w) in enumerate(zip(got + ["<missing>"] * len(wanted), wanted + ["<extra>"] * len(got))):
-            if g != w:
+            if g == "<missing>" or w == "<extra>" or _norm(g) != _norm(w):
                 raise ValueError(f"{where}: statement {i} is {g!r}, expected {w!r}")
         raise ValueError(f"{where}: unexpected statements")
 
